@@ -297,6 +297,10 @@ func (e *Engine) atReturn(st *State, fn *ssa.Function, ct *Contract, env map[str
 		if en.Name != "" {
 			name = en.Name
 		}
+		if en.Trusted {
+			e.Assumed["trusted postcondition of "+fr.Key+" (assumed at call sites, not checked): "+en.Src] = true
+			continue
+		}
 		g := e.evalClause(post, en)
 		e.oblige(st, "post", name, fn.Pos(), g, "postcondition: "+en.Src)
 	}
